@@ -352,6 +352,10 @@ class CallResolver:
             if isinstance(arg, Assign):
                 if arg.name.level is not None:
                     raise CallResolverError("A keyword argument name cannot have a level.")
+                if arg.name.name.lexeme in kwargs:
+                    raise CallResolverError(
+                        f"Keyword argument '{arg.name.name.lexeme}' is repeated in a function call."
+                    )
                 kwargs[arg.name.name.lexeme] = arg.value.accept(self)
             else:
                 args.append(arg.accept(self))
